@@ -19,7 +19,7 @@ for b in blocks:
 scratch = hdr + '\nSet Printing Width 110.\nSet Printing Depth 100000.\n'
 for (n, t, c) in items:
     scratch += 'Check (%s).\n' % t
-d = '/tmp/kw_P1'
+d = os.environ.get('KESTREL_COQ_DIR', '/verif/coq')
 fn = os.path.join(d, 'scratch_gen_%d.v' % os.getpid())
 open(fn, 'w').write(scratch)
 r = subprocess.run(['timeout', '600', 'coqc', '-Q', '.', 'Kestrel', os.path.basename(fn)], cwd=d, capture_output=True, text=True)
